@@ -12,7 +12,11 @@ Genuine defects of the real code are listed in KNOWN_FINDINGS.json (FM1..FM12); 
 repaired: their mutants (`agg-bound-arg`, `malformed-condition`, `use+empty-disjunction`, `agg-bound-arg-missing`, `signature-mismatch`,
 `direct-branching-*`, the clause-condition rebinds inside macros) are ordinary ill-formed programs now — rejected with a proper error, kind by
 kind equal to the model.  The `direct-branching-*` programs (a macro invoking itself twice per level) are still run in a process of their own
-under a generous time limit (`alone`), as a safety net: `hang` is a failure like a panic."""
+under a generous time limit (`alone`), as a safety net: `hang` is a failure like a panic.
+Re-declared relations (`relation r(..); .. relation r(..);`: legal, `dedup_all_keep_last_by` keeps the last copy, model: `Summary.effDecls`): a fixed
+quota of the well-formed programs declares one or two relations twice; the declaration-level mutators plant their violation on the LAST copy; forced
+mutants put `#[ds(..)]` on a lattice declared behind a duplicated declaration (must be rejected, under every macro), accepted variants put the offending
+attribute on a REPLACED copy (must be accepted: such a declaration takes no part in the program).  Counters: cov["redeclared_relations"]."""
 import collections, json, os, re, shutil, subprocess, time
 from . import core, tiec, c15gen as G, c15tie as T
 
